@@ -144,3 +144,20 @@ Definition site_value_text (k: kind) (p: N -> bool) (v: lit) : list N :=
   | KAscii => render_lit (fun _ => false) v
   | _ => render_lit p v
   end.
+
+(* ------------------------------------------------------------------ round 4: library text inside
+   static string literals of the templates ('{fname}', 'Argument for {type_name(self.cls)} ...') *)
+Record isite := mk_isite {
+  i_file : string; i_line : nat; i_func : string; i_expr : string; i_origin : string;
+  i_plain : bool;      (* the origin rules say: identifier / dotted class name / hex / number *)
+  i_quote : string;    (* the quote character of the enclosing static literal *)
+  i_before : string;   (* static text between the opening quote and the value (2 = another placeholder) *)
+  i_after : string     (* static text between the value and the closing quote; 1 = closing quote not found *)
+}.
+
+Definition inner_char_ok (c: N) : bool := plain_char c && negb (c =? 1).
+
+Definition isite_ok (s: isite) : bool :=
+  i_plain s
+  && match codes (i_quote s) with [q] => is_quote q | _ => false end
+  && forallb inner_char_ok (codes (i_before s)) && forallb inner_char_ok (codes (i_after s)).
